@@ -13,8 +13,11 @@ growth law inside it are the definitions REGENERATED from the source (Gen/C14Nuc
 -/
 import KawinV.Model.KWNFull
 import KawinV.Props.C01
+import KawinV.Props.C03
 import KawinV.Props.C05
 import KawinV.Props.C08
+import Mathlib.Algebra.Order.Field.Rat
+import Mathlib.Tactic.NormNum
 
 set_option linter.unusedSectionVars false
 set_option linter.unusedVariables false
@@ -217,6 +220,17 @@ theorem growthBinary_lookT (c : Cfg α) (s : St α) (a : EvalAns α) (y : Slice 
 
 /-! ### `_updateParticleSizeDistribution` keeps the recorded rows -/
 
+theorem afterAdjust_hist (c : Cfg α) (s : St α) (p : Nat) (ps : PhaseSt α) (g2 : Grid.State α) (change : Bool)
+    (added : Option Nat) (u : UpdAns α) : (afterAdjust c s p ps g2 change added u).hist = s.hist := by
+  unfold afterAdjust
+  simp only
+  split
+  · rw [growthRate_hist]
+    split
+    · split <;> rfl
+    · rfl
+  · rfl
+
 theorem updatePh_hist (c : Cfg α) (s s' : St α) (t : α) (p : Nat) (xp : List α) (u : UpdAns α)
     (h : updatePh c s t p xp u = some s') : s'.hist = s.hist := by
   unfold updatePh at h
@@ -231,15 +245,11 @@ theorem updatePh_hist (c : Cfg α) (s s' : St α) (t : α) (p : Nat) (xp : List 
         · simp at h
         · split at h
           · simp at h
-          · simp only [Option.some.injEq] at h
-            subst h
-            simp only
-            split
-            · rw [growthRate_hist]
-              split
-              · split <;> rfl
-              · rfl
-            · rfl
+          · split at h
+            · simp at h
+            · simp only [Option.some.injEq] at h
+              subst h
+              exact afterAdjust_hist _ _ _ _ _ _ _ _
 
 theorem updateAll_hist (c : Cfg α) (t : α) : ∀ (xs : List (List α)) (s s' : St α) (p : Nat) (us : List (UpdAns α)),
     updateAll c t s p xs us = some s' → s'.hist = s.hist
@@ -363,6 +373,21 @@ theorem growthRate_fresh (c : Cfg α) (s : St α) (a : EvalAns α) (y : Slice α
   · exact growthBinary_fresh c s a y hmax
   · exact h
 
+theorem afterAdjust_fresh (c : Cfg α) (s : St α) (p : Nat) (ps : PhaseSt α) (g2 : Grid.State α) (change : Bool)
+    (added : Option Nat) (u : UpdAns α) (hmax : 0 ≤ c.maxTempChange) (hf : Fresh c s (s.cur c.nElem).temp) :
+    Fresh c (afterAdjust c s p ps g2 change added u) (s.cur c.nElem).temp := by
+  unfold afterAdjust
+  simp only
+  split
+  · -- the `if change:` branch ends with a growth-rate call on a copy of the newest row
+    apply growthRate_fresh c _ u.regrow (s.cur c.nElem) hmax
+    split
+    · split
+      · simp only [Fresh, createLookup]; rw [absS_self_sub]; exact hmax
+      · exact hf
+    · exact hf
+  · exact hf
+
 theorem updatePh_fresh (c : Cfg α) (s s' : St α) (t : α) (p : Nat) (xp : List α) (u : UpdAns α)
     (hmax : 0 ≤ c.maxTempChange) (hf : Fresh c s (s.cur c.nElem).temp)
     (h : updatePh c s t p xp u = some s') : Fresh c s' (s.cur c.nElem).temp := by
@@ -378,18 +403,11 @@ theorem updatePh_fresh (c : Cfg α) (s s' : St α) (t : α) (p : Nat) (xp : List
         · simp at h
         · split at h
           · simp at h
-          · simp only [Option.some.injEq] at h
-            subst h
-            simp only [Fresh]
-            split
-            · -- the `if change:` branch ends with a growth-rate call on a copy of the newest row
-              apply growthRate_fresh c _ u.regrow (s.cur c.nElem) hmax
-              split
-              · split
-                · simp only [Fresh, createLookup]; rw [absS_self_sub]; exact hmax
-                · exact hf
-              · exact hf
-            · exact hf
+          · split at h
+            · simp at h
+            · simp only [Option.some.injEq] at h
+              subst h
+              exact afterAdjust_fresh _ _ _ _ _ _ _ _ hmax hf
 
 theorem updateAll_fresh (c : Cfg α) (t : α) (hmax : 0 ≤ c.maxTempChange) :
     ∀ (xs : List (List α)) (s s' : St α) (p : Nat) (us : List (UpdAns α)),
@@ -588,5 +606,297 @@ theorem runSteps_fresh (c : Cfg α) (tf dtminS : α) (hb : c.binary = true) (hma
         exact runSteps_fresh c tf dtminS hb hmax rest o.st s' _ m'
           (anyStep_fresh c s tf dtminS m au o hb hmax ho) h
     · simp only [Option.some.injEq, Prod.mk.injEq] at h; rw [← h.1]; exact hf
+
+/-! ### the stored size-class grids stay consistent through every step (C08's invariant inside KWN runs) -/
+
+open KawinV.Grid in
+/-- a PBM grid as a KWN phase holds it: `C08.Inv` (class count ≥ 1, boundaries = linspace from min to max strictly
+increasing, centres are midpoints, lengths match, populations ≥ 0, usable original grid and backup) with sensible bin limits,
+history recording off -/
+def GridGood (g : Grid.State α) : Prop := C08.Inv g ∧ 1 ≤ g.minBins ∧ 1 ≤ g.maxBins ∧ g.recording = false
+
+def AllGood (l : List (PhaseSt α)) : Prop := ∀ ps ∈ l, GridGood ps.grid
+
+theorem processX_nonneg (k : Nat) (mr : α) (x R : List α) (hx : ∀ v ∈ x, 0 ≤ v) :
+    ∀ v ∈ PSD.processX k mr x R, 0 ≤ v := by
+  unfold PSD.processX
+  intro v hv
+  rw [List.mem_mapIdx] at hv
+  obtain ⟨i, hi, rfl⟩ := hv
+  split
+  · exact le_refl _
+  · have hm := List.getElem_mem hi
+    rw [List.mem_iff_getElem] at hm
+    obtain ⟨j, hj, hje⟩ := hm
+    rw [List.getElem_zipWith] at hje
+    rw [← hje]
+    split
+    · exact le_refl _
+    · exact hx _ (List.getElem_mem _)
+
+theorem update_good (g g1 : Grid.State α) (t : α) (N : List α) (h : GridGood g) (hN : N.length = g.bins)
+    (hu : Grid.update g t N = some g1) : GridGood g1 := by
+  obtain ⟨hi, h1, h2, hr⟩ := h
+  have hinv := C08.update_inv g g1 t N hi hN (by intro h'; rw [hr] at h'; cases h') hu
+  unfold Grid.update Grid.record at hu
+  simp only [hr] at hu
+  simp only [Bool.false_eq_true, if_false, Option.some.injEq] at hu
+  subst hu
+  exact ⟨hinv, h1, h2, rfl⟩
+
+theorem add_cfg (g g' : Grid.State α) (k : Nat) (h : Grid.add g k = some g') :
+    g'.minBins = g.minBins ∧ g'.maxBins = g.maxBins ∧ g'.recording = g.recording := by
+  unfold Grid.add at h
+  split at h
+  · simp only [Option.some.injEq] at h; subst h; exact ⟨rfl, rfl, rfl⟩
+  · simp at h
+
+theorem change_cfg (g g' : Grid.State α) (a b : α) (n : Option Nat) (r : Bool) (h : Grid.change g a b n r = some g') :
+    g'.minBins = g.minBins ∧ g'.maxBins = g.maxBins ∧ g'.recording = g.recording := by
+  unfold Grid.change at h
+  simp only at h
+  split at h
+  · simp only [Option.some.injEq] at h; subst h; simp only [Grid.reset, Grid.retarget]; split <;> exact ⟨rfl, rfl, rfl⟩
+  · split at h
+    · simp at h
+    · split at h <;>
+      (simp only [Option.some.injEq] at h; subst h; simp only [Grid.reset, Grid.retarget]; exact ⟨rfl, rfl, rfl⟩)
+
+theorem adjust_good (g g' : Grid.State α) (cd chg : Bool) (ni : Option Nat) (h : GridGood g)
+    (ha : Grid.adjust g cd = some (g', chg, ni)) : GridGood g' := by
+  obtain ⟨hi, h1, h2, hr⟩ := h
+  have hinv := C08.adjust_inv g g' cd chg ni hi h1 h2 ha
+  refine ⟨hinv, ?_⟩
+  unfold Grid.adjust at ha
+  split at ha
+  · simp at ha
+  · next s1 c1 n1 hadd =>
+    have hc1 : s1.minBins = g.minBins ∧ s1.maxBins = g.maxBins ∧ s1.recording = g.recording := by
+      unfold Grid.adjustAdd at hadd
+      split at hadd
+      · simp at hadd
+      · split at hadd
+        · rw [Option.map_eq_some_iff] at hadd
+          obtain ⟨t, hadd', heq⟩ := hadd
+          have : t = s1 := by simpa using congrArg Prod.fst heq
+          subst this
+          exact add_cfg _ _ _ hadd'
+        · simp only [Option.some.injEq, Prod.mk.injEq] at hadd
+          rw [← hadd.1]; exact ⟨rfl, rfl, rfl⟩
+    split at ha
+    · simp at ha
+    · simp only [Option.some.injEq, Prod.mk.injEq] at ha
+      rw [← ha.1, hc1.1, hc1.2.1, hc1.2.2]; exact ⟨h1, h2, hr⟩
+    · rw [Option.map_eq_some_iff] at ha
+      obtain ⟨t, hch, heq⟩ := ha
+      have : t = g' := by simpa using congrArg Prod.fst heq
+      subst this
+      have hc2 := change_cfg _ _ _ _ _ _ hch
+      rw [hc2.1, hc2.2.1, hc2.2.2, hc1.1, hc1.2.1, hc1.2.2]; exact ⟨h1, h2, hr⟩
+
+theorem finishPh_good (c : Cfg α) (ps : PhaseSt α) (h : GridGood ps.grid) : GridGood (finishPh c ps).grid := by
+  obtain ⟨hi, h1, h2, hr⟩ := h
+  unfold finishPh
+  simp only
+  refine ⟨C08.setPsd_inv ps.grid _ hi ?_ ?_, h1, h2, hr⟩
+  · rw [C03.processX_length]
+    have := (C08.inv_spec ps.grid hi)
+    rw [this.2.1, this.2.2.2.1]; simp
+  · exact processX_nonneg _ _ _ _ (C08.inv_spec ps.grid hi).2.2.2.2.2.2.2.2
+
+theorem reset_good (g : Grid.State α) (h : GridGood g) : GridGood (Grid.reset g true) := by
+  obtain ⟨hi, h1, h2, hr⟩ := h
+  refine ⟨C08.reset_true_inv g hi.orig_bins hi.orig_nonneg hi.orig_lt hi.recs hi.saved, ?_⟩
+  simp only [Grid.reset, if_true]
+  exact ⟨h1, h2, hr⟩
+
+theorem allGood_set (l : List (PhaseSt α)) (p : Nat) (v : PhaseSt α) (h : AllGood l) (hv : GridGood v.grid) :
+    AllGood (setPh l p v) := by
+  intro ps hps
+  unfold setPh at hps
+  rcases List.mem_or_eq_of_mem_set hps with h1 | h1
+  · exact h ps h1
+  · rw [h1]; exact hv
+
+theorem createLookup_good (T : α) (tab : List (TablePh α)) (s : St α) (h : AllGood s.ph) :
+    AllGood (createLookup T tab s).ph := by
+  intro ps hps
+  simp only [createLookup] at hps
+  rw [List.mem_iff_getElem] at hps
+  obtain ⟨i, hi, rfl⟩ := hps
+  rw [List.getElem_zipWith]
+  show GridGood (s.ph[i]'(by simp at hi; omega)).grid
+  exact h _ (List.getElem_mem _)
+
+theorem growthRate_good (c : Cfg α) (s : St α) (a : EvalAns α) (y : Slice α) (h : AllGood s.ph) :
+    AllGood (growthRate c s a y).1.ph := by
+  unfold growthRate
+  split
+  · unfold growthBinary
+    simp only
+    intro ps hps
+    rw [List.mem_map] at hps
+    obtain ⟨t, ht, rfl⟩ := hps
+    have hm := (mem_zip3_fst _ _ _ _ ht).2.1
+    show GridGood t.2.1.grid
+    split at hm
+    · exact createLookup_good _ _ _ h _ hm
+    · exact h _ hm
+  · unfold growthMulti
+    simp only
+    intro ps hps
+    rw [List.mem_map] at hps
+    obtain ⟨q, hq, rfl⟩ := hps
+    rw [List.mem_map] at hq
+    obtain ⟨t, ht, rfl⟩ := hq
+    have hm := (mem_zip3_fst _ _ _ _ ht).1
+    have hg : (growthMultiPh c t.1 t.2.1 t.2.2).1.grid = t.1.grid := by
+      unfold growthMultiPh
+      simp only
+      split
+      · rfl
+      · split
+        · split <;> rfl
+        · rfl
+    simp only
+    rw [hg]
+    exact h _ hm
+
+theorem depEval_good (c : Cfg α) (s : St α) (t : α) (x : List (List α)) (a : EvalAns α) (y : Slice α) (h : AllGood s.ph) :
+    AllGood (depEval c s t x a y).1.ph := by
+  unfold depEval
+  exact growthRate_good _ _ _ _ h
+
+theorem afterAdjust_good (c : Cfg α) (s : St α) (p : Nat) (ps : PhaseSt α) (g2 : Grid.State α) (change : Bool)
+    (added : Option Nat) (u : UpdAns α) (hg : AllGood s.ph) (hg2 : GridGood g2) :
+    AllGood (afterAdjust c s p ps g2 change added u).ph := by
+  unfold afterAdjust
+  simp only
+  split
+  · apply growthRate_good
+    split
+    · split
+      · apply createLookup_good
+        exact allGood_set _ _ _ (allGood_set _ _ _ hg hg2) hg2
+      · exact allGood_set _ _ _ (allGood_set _ _ _ (allGood_set _ _ _ hg hg2) hg2) hg2
+    · exact allGood_set _ _ _ (allGood_set _ _ _ (allGood_set _ _ _ hg hg2) hg2) hg2
+  · exact allGood_set _ _ _ hg hg2
+
+theorem updatePh_good (c : Cfg α) (s s' : St α) (t : α) (p : Nat) (xp : List α) (u : UpdAns α) (hg : AllGood s.ph)
+    (h : updatePh c s t p xp u = some s') : AllGood s'.ph := by
+  unfold updatePh at h
+  simp only at h
+  split at h
+  · simp at h
+  · next ps hps =>
+    have hps' : GridGood ps.grid := hg ps (List.mem_of_getElem? hps)
+    split at h
+    · simp only [Option.some.injEq] at h; subst h
+      exact allGood_set _ _ _ hg (reset_good _ hps')
+    · split at h
+      · simp at h
+      · next hlen =>
+        split at h
+        · simp at h
+        · next g1 hu =>
+          have hg1 := update_good ps.grid g1 t xp hps' (by simpa using hlen) hu
+          split at h
+          · simp at h
+          · next g2 change added hadj =>
+            have hg2 := adjust_good g1 g2 _ change added hg1 hadj
+            have hs3 := afterAdjust_good c s p ps g2 change added u hg hg2
+            split at h
+            · simp at h
+            · next psF hF =>
+              simp only [Option.some.injEq] at h
+              subst h
+              exact allGood_set _ _ _ hs3 (finishPh_good c psF (hs3 psF (List.mem_of_getElem? hF)))
+
+theorem updateAll_good (c : Cfg α) (t : α) : ∀ (xs : List (List α)) (s s' : St α) (p : Nat) (us : List (UpdAns α)),
+    AllGood s.ph → updateAll c t s p xs us = some s' → AllGood s'.ph
+  | [], s, s', p, us, hg, h => by simp [updateAll] at h; subst h; exact hg
+  | xp :: xs, s, s', p, us, hg, h => by
+    simp only [updateAll] at h
+    split at h
+    · simp at h
+    · next s1 h1 => exact updateAll_good c t xs s1 s' (p+1) us.tail (updatePh_good c s s1 t p xp _ hg h1) h
+
+theorem finishStep_good (c : Cfg α) (e : St α × Slice α) (t' : α) (xP : List (List α)) (upd : List (UpdAns α)) (sD : St α)
+    (hg : AllGood e.1.ph) (h : finishStep c e t' xP upd = some sD) : AllGood sD.ph := by
+  unfold finishStep at h
+  exact updateAll_good c t' xP { e.1 with hist := e.2 :: e.1.hist } sD 0 upd hg h
+
+/-- **the stored size-class grids after every accepted step, for every backend answer and either iterator**: class count
+≥ 1, boundaries strictly increasing from the stated minimum to the stated maximum, centres are midpoints, array lengths match
+the class count and every stored population is non-negative — whatever growth field, nucleation terms, tables or step the step
+used, through truncation, extension, re-meshing, reset and the zeroing below the thresholds -/
+theorem anyStep_good (c : Cfg α) (s : St α) (tf dtminS dtmaxS : α) (au : StepAns α) (o : StepOut α) (hg : AllGood s.ph)
+    (h : anyStep c s tf dtminS dtmaxS au = some o) : AllGood o.st.ph := by
+  cases au with
+  | euler a u =>
+    simp only [anyStep, eulerStep] at h
+    split at h
+    · simp at h
+    · next sD hD =>
+      simp only [Option.some.injEq] at h; subst h
+      exact finishStep_good c _ _ _ _ _ (depEval_good _ _ _ _ _ _ hg) hD
+  | rk4 a2 a3 a4 a u =>
+    simp only [anyStep, rk4Step] at h
+    split at h
+    · simp at h
+    · next sD hD =>
+      simp only [Option.some.injEq] at h; subst h
+      refine finishStep_good c _ _ _ _ _ ?_ hD
+      simp only [rk4Post, rk4Evals]
+      exact depEval_good _ _ _ _ _ _ (depEval_good _ _ _ _ _ _ (depEval_good _ _ _ _ _ _ (depEval_good _ _ _ _ _ _ hg)))
+
+theorem runSteps_good (c : Cfg α) (tf dtminS : α) :
+    ∀ (steps : List (StepAns α)) (s s' : St α) (m m' : α), AllGood s.ph →
+      runSteps c tf dtminS s m steps = some (s', m') → AllGood s'.ph
+  | [], s, s', m, m', hg, h => by simp [runSteps] at h; rw [← h.1]; exact hg
+  | au :: rest, s, s', m, m', hg, h => by
+    simp only [runSteps] at h
+    split at h
+    · split at h
+      · simp at h
+      · next o ho => exact runSteps_good c tf dtminS rest o.st s' _ m' (anyStep_good c s tf dtminS m au o hg ho) h
+    · simp only [Option.some.injEq, Prod.mk.injEq] at h; rw [← h.1]; exact hg
+
+/-! ### non-vacuity
+
+`GridGood` is satisfiable (the grid a `PopulationBalanceModel` is constructed with).  The hypothesis `… = some o` of the step
+theorems says "the implementation does not raise in this step"; that it is met by real steps is what the refinement run shows on
+every check run (thousands of accepted steps answered `val …`, never `raises`, by the compiled model); here the degenerate witness
+of a model without precipitate phases, for which the equation reduces by computation. -/
+
+namespace Example
+
+def g0 : Grid.State ℚ := Grid.init (1 : ℚ) 20 2 1 4
+
+example : GridGood g0 :=
+  ⟨C08.inv_init (1 : ℚ) 20 2 1 4 (by decide) (by norm_num) (by norm_num [Grid.amax2]), by decide, by decide, by decide⟩
+
+variable [Trans ℚ]
+
+def cfg0 : Cfg ℚ :=
+  { dt := { checkPSD := true, checkNuc := true, checkTemp := true, checkRcrit := true, checkVol := true, minNucRate := 1 / 100000,
+            maxNucChange := 1 / 2, maxNonIsoDT := 1, maxRcritChange := 1 / 100, maxVolChange := 1 / 1000, dtScale := 1 / 1000,
+            binRatio := 2 / 5 },
+    sites := { bulkN0 := 1000, dislN0 := 1000, gbN0 := 1000, edgeN0 := 1000, cornerN0 := 1000, NA := 6, vmAlpha := 1 },
+    phases := [], nElem := 1, binary := true, betaType := 1, isothermal := true, kB := 1, a0 := 1, theta := 2,
+    minDens := 1 / 10000000000, minComp := 0, minRadius := 1 / 2, maxDissolution := 1 / 1000, maxTempChange := 1, x0 := [1 / 10] }
+
+def st0 : St ℚ :=
+  { ph := [], lookT := 700, lookEqA := [], lookEqB := [], hist := [{ time := 0, temp := 700, comp := [1 / 10], ph := [] }] }
+
+def ans0 : EvalAns ℚ := { T := 700, D := 1, table := [], ph := [] }
+
+example : (eulerStep cfg0 st0 10 (1 / 100) 10 ans0 []).isSome = true := by
+  simp [eulerStep, finishStep, updateAll, processAll, advanced, stageX, entryX, st0, zip3]
+
+example : (rk4Step cfg0 st0 10 (1 / 100) 10 ans0 ans0 ans0 ans0 []).isSome = true := by
+  simp [rk4Step, finishStep, updateAll, processAll, rk4Evals, stageX, entryX, st0, zip3]
+
+end Example
 
 end KawinV.Props.KWNFull
